@@ -66,7 +66,7 @@ def analyse_parser(ctx):
     k = G.one('cctz::ParsePosixSpec')
     u, f = G.defs[k]
     obs = _Obs()
-    ai = AI(G, obs, partition=_part, max_parts=400)
+    ai = AI(G, obs, partition=_part, max_parts=400, auto_unroll=True)
     ps = params_of(f)
     st = St()
     st.refs[ps[0]['id']] = ('SPEC',)
@@ -264,7 +264,19 @@ def run(ctx):
     ga = ctx.cfg(fa)
     def _is_len(b_):
         rb = Fa.resolve_key(b_)
-        return ' - ' in rb or rb.startswith('strcspn(') or rb.startswith('strspn(') or '.size()' in rb or '.length()' in rb
+        if ' - ' in rb or rb.startswith('strcspn(') or rb.startswith('strspn(') or '.size()' in rb or '.length()' in rb:
+            return True
+        # an index local that counts the characters scanned: stepped by ++ only, and used to subscript the cursor
+        m_ = re.match(r'^(\w+)#(0x[0-9a-f]+)$', rb)
+        d_ = ua.by_id.get(m_.group(2)) if m_ else None
+        if d_ is not None and d_.get('kind') == 'VarDecl':
+            ws_ = [y for y in walk(fa) if y.get('kind') in ('UnaryOperator', 'BinaryOperator', 'CompoundAssignOperator') and
+                   any((peel(l_).get('referencedDecl') or {}).get('id') == d_['id'] for l_ in _written(y))]
+            subs_ = [y for y in walk(fa) if y.get('kind') == 'ArraySubscriptExpr' and
+                     (peel(kids(y)[1]).get('referencedDecl') or {}).get('id') == d_['id']]
+            return bool(ws_) and all(y.get('kind') == 'UnaryOperator' and y.get('opcode') == '++' for y in ws_) and bool(subs_)
+        return False
+    from ..expr import written_lvalues as _written
     seen_kind = {'plain': [], 'quoted': []}
     for rn in ga.returns:
         rk = Fa.keys.key(kids(rn.ast)[0])
